@@ -66,6 +66,7 @@ var exprSel = map[string]string{
 var immTypes = map[string]string{
 	"immTypeR": "ImmType.R", "immTypeI": "ImmType.I", "immTypeS": "ImmType.S",
 	"immTypeB": "ImmType.B", "immTypeU": "ImmType.U", "immTypeJ": "ImmType.J",
+	"immTypeShamt": "ImmType.shamt",
 }
 
 var regs = map[string]string{"rd": "Reg.rd", "rs1": "Reg.rs1", "rs2": "Reg.rs2"}
